@@ -7,7 +7,9 @@
 package main
 
 import (
+	"encoding/json"
 	"fmt"
+	"os"
 	"sort"
 	"strings"
 	"time"
@@ -156,7 +158,7 @@ func main() {
 		Level: "model_checking",
 		Rule: "6 async scenarios (await chain, two awaiters of one promise, await racing resolve, rejected promise awaited twice, task spawning two tasks, fan-out 3) x pool sizes x queue capacities; for each, every schedule of the real promise/thread-pool/AWAIT code (A) with at most B preemptions (quick B=2, thorough B=3) over scheduling points at every Mutex/WaitGroup/channel/go operation and after every release, and (B) with at most B-1 preemptions with an additional scheduling point before every statement of vm/promise.go and vm/thread_pool.go; " +
 			"oracle: no deadlock, no host panic/fatal, stdout multiset equals the sequential expectation (each resumed marker exactly once); non-trivial = configurations with more than one distinct schedule outcome or at least 100 executions",
-		Assume: []string{"scheduling points are at synchronisation operations and (for promise.go/thread_pool.go) statements; the interpreter loop between them runs atomically", "timers (sleep/timeout) are not modelled and not used"},
+		Assume: []string{"scheduling points are at synchronisation operations and (for promise.go/thread_pool.go) statements; the interpreter loop between them runs atomically", "timers (sleep/timeout) are not modelled and not used", "accesses racing between scheduling points are reported by the supplementary free-running pass under Go's race detector (case racepass/scenarios), which decides nothing alone"},
 		CaseTimeout: 15 * time.Minute,
 		Setup: func(c *engine.Ctx) {
 			elkrun.Init()
@@ -171,6 +173,27 @@ func main() {
 				bound = 3
 				cfgs = []poolCfg{{1, 1}, {1, 2}, {1, 3}, {1, 8}, {2, 1}, {2, 2}, {2, 3}, {2, 8}, {3, 1}, {3, 2}, {3, 3}, {3, 8}}
 			}
+			// free-running companion pass under Go's race detector: the same scenarios x pool configurations on the
+			// uninstrumented VM (see engine.RacePass); pool 1 / queue 1 is left out (known capacity deadlock)
+			c.Case("racepass/scenarios", func(r *engine.R) {
+				var l []map[string]any
+				for _, sc := range scens {
+					for _, pc := range cfgs {
+						if pc.n == 1 && pc.q == 1 {
+							continue
+						}
+						l = append(l, map[string]any{"name": fmt.Sprintf("%s/pool=%d/queue=%d", sc.name, pc.n, pc.q), "src": sc.src, "pool_n": pc.n, "pool_q": pc.q})
+					}
+				}
+				b, _ := json.Marshal(l)
+				f := "/verif/.work/c16-racepass.json"
+				os.WriteFile(f, b, 0o644)
+				rounds := "20"
+				if c.Thorough {
+					rounds = "200"
+				}
+				engine.RacePass(r, "async", 15*time.Minute, "elk", f, rounds)
+			})
 			for _, sc := range scens {
 				for _, pc := range cfgs {
 					sc, pc := sc, pc
